@@ -350,6 +350,71 @@ static void wide_bit_vector_case(rng_t *r) {
     munmap(m, total);
 }
 
+/* boolean matrices of more than 2^32 cells whose row and column counts each fit 4 header bytes: cell (row, col) is bit
+ * row*cols + col; the product needs 64 bits.  Lazily mapped, only the touched pages exist. */
+static void big_bit_matrix_case(rng_t *r) {
+    size_t cols, rows;
+    switch (rng_below(r, 4)) {
+    case 0: cols = 50000 + rng_below(r, 200000); break;              /* 3-byte column count */
+    case 1: cols = 300 + rng_below(r, 60000); break;                 /* 2-byte column count */
+    case 2: cols = (1u << 24) + rng_below(r, 1u << 26); break;       /* 4-byte column count */
+    default: cols = 65535 + rng_below(r, 3); break;
+    }
+    uint64_t cells = (1ULL << 32) + rng_below(r, 3ULL << 32);
+    rows = (size_t)(cells / cols) + 2;
+    if (rows > 0xffffffffULL) rows = 0xffffffffULL;
+    int wr = ref_bytes_needed(rows), wc = ref_bytes_needed(cols);
+    size_t hl = (size_t)(wr + wc);
+    size_t total = hl + (size_t)(((uint64_t)rows * cols + 7) / 8) + 8;
+    uint8_t *m = mmap(NULL, total, PROT_READ | PROT_WRITE, MAP_PRIVATE | MAP_ANONYMOUS | MAP_NORESERVE, -1, 0);
+    if (m == MAP_FAILED) {
+        STAT_INC("c10_big_bit_matrix_skipped_mmap_failed");
+        return;
+    }
+    varintDimensionPair d = varintDimensionPairEncode(m, rows, cols);
+    uint8_t h2[16];
+    ref_le(h2, rows, wr);
+    ref_le(h2 + wr, cols, wc);
+    for (int t = 0; t < 30; t++) {
+        size_t row = t == 0 ? rows - 1 : t == 1 ? (size_t)((1ULL << 32) / cols) + 1 : rng_below(r, rows);
+        size_t col = t == 0 ? cols - 1 : rng_below(r, cols);
+        uint64_t idx = (uint64_t)row * cols + col;
+        size_t byte = hl + (size_t)(idx / 8);
+        unsigned bit = (unsigned)(idx % 8);
+        /* where a 32-bit product would land */
+        uint64_t widx = (uint64_t)(uint32_t)((uint32_t)row * (uint32_t)cols) + col;
+        size_t wbyte = hl + (size_t)(widx / 8);
+        snprintf(g_sub, sizeof g_sub, "big bit matrix %zux%zu cell (%zu,%zu) dimension=0x%x", rows, cols, row, col, (unsigned)d);
+        uint8_t wbefore = m[wbyte], before = m[byte];
+        g_ctx = "varintDimensionPairEntrySetBit";
+        varintDimensionPairEntrySetBit(m, row, col, true, d);
+        bool ok = ((m[byte] >> bit) & 1) && (m[byte] & ~(1u << bit)) == (before & ~(1u << bit)) && (wbyte == byte || m[wbyte] == wbefore);
+        g_ctx = "varintDimensionPairEntryGetBit";
+        ok = ok && varintDimensionPairEntryGetBit(m, row, col, d);
+        if (!ok || memcmp(h2, m, hl)) {
+            DFAIL("varintDimensionPairEntrySetBit", memcmp(h2, m, hl) ? "changed-header-byte" : "read-back-differs-from-written", "%s", g_sub);
+            break;
+        }
+        g_ctx = "varintDimensionPairEntryToggleBit";
+        bool prev = varintDimensionPairEntryToggleBit(m, row, col, d);
+        if (!prev || ((m[byte] >> bit) & 1) || varintDimensionPairEntryGetBit(m, row, col, d) || (wbyte != byte && m[wbyte] != wbefore)) {
+            DFAIL("varintDimensionPairEntryToggleBit", "read-back-differs-from-written", "%s (toggle)", g_sub);
+            break;
+        }
+        /* a neighbouring cell written directly in the storage is what Get returns */
+        m[byte] |= (uint8_t)(1u << bit);
+        if (!varintDimensionPairEntryGetBit(m, row, col, d)) {
+            DFAIL("varintDimensionPairEntryGetBit", "read-differs-from-documented-layout", "%s", g_sub);
+            break;
+        }
+        m[byte] = before;
+        if (idx >= (1ULL << 32)) STAT_INC("c10_big_bit_matrix_cells_beyond_2^32");
+    }
+    g_sub[0] = 0;
+    munmap(m, total);
+    STAT_INC("c10_big_bit_matrices");
+}
+
 static void dim_case(uint64_t idx, rng_t *r) {
     uint64_t g = idx * g_nshards + g_shard;
     switch (g % 4) {
@@ -358,6 +423,7 @@ static void dim_case(uint64_t idx, rng_t *r) {
     default: matrix_case(r); break;
     }
     if (g_param[0] && (g % g_param[0]) == 7) wide_bit_vector_case(r);
+    if (g_param[0] && (g % g_param[0]) == 11) big_bit_matrix_case(r);
     STAT_INC("distinct_nontrivial");
 }
 
